@@ -284,7 +284,10 @@ func (s *Spec) Step(ctx context.Context, st *State, pending interface{}, c *Cont
 		if err == nil {
 			bs = e.Bs
 		} else {
-			// Bind "actionError" to the error string.
+			// Bind "actionError" to the error string (in a
+			// copy: st.Bs belongs to the caller and might
+			// be nil).
+			bs = bs.Copy()
 			bs.Extend("actionError", err.Error())
 			bs.Extend("error", err.Error())
 			if !s.ActionErrorBranches {
